@@ -250,4 +250,5 @@ def main(tier):
     RC = check_c(rep, mod)
     check_asm(rep, RC, mod)
     check_init(rep, mod)
+    provenance.check_undef(rep, None, 'ALL', 130)
     return rep.finish()
